@@ -487,7 +487,7 @@ impl Prop for C04T {
         let mut rng = Rng::new(seed);
         let ifs = simcore::spec::ifaces_of(Family::Zoo);
         let iface = *rng.pick(&ifs);
-        let m = Model::of(iface);
+        let m = simcore::spec::model(iface);
         let n_msgs = rng.range(1, 3);
         let mut msgs = Vec::new();
         for _ in 0..n_msgs {
